@@ -39,7 +39,22 @@ def run(run):
                     "unrecognised splitter, CRLF handling cannot be established" % (len(lines), len(bad)))
         # every row that is pushed comes from a lines() item; chars of the row come from line.chars()
         chars = [t for _, t in prog.calls(sb_from) if re.search(r"str::<impl str>::chars$", Program.callee_name(t))]
-        if len(chars) == 1 and mentions(ex.operand(chars[0]["args"][0]), lambda z: z[0] == "call" and z[1].endswith("str::<impl str>::lines")):
+        closure_chars = False
+        if not chars:
+            # `s.lines().map(|line| line.chars()...collect())`: chars() of the closure's item, the closure mapped over lines()
+            for q in prog.closures_of(sb_from):
+                qc = [t for _, t in prog.calls(q) if re.search(r"str::<impl str>::chars$", Program.callee_name(t))]
+                if len(qc) == 1 and strip(Expr(prog, q).operand(qc[0]["args"][0])) == ("param", 2, ()):
+                    for _, t2 in prog.calls(sb_from):
+                        if re.search(r"Iterator::map$", Program.callee_name(t2)) and len(t2["args"]) == 2:
+                            cl_, _ = closure_of(strip(ex.operand(t2["args"][1])))
+                            src_ = strip(ex.operand(t2["args"][0]))
+                            if cl_ == q and src_[0] == "call" and src_[1].endswith("str::<impl str>::lines"):
+                                closure_chars = True
+                                chars = qc
+        if closure_chars:
+            run.ok("C17.W1", "row characters = line.chars() of a lines() item", where(chars[0]))
+        elif len(chars) == 1 and mentions(ex.operand(chars[0]["args"][0]), lambda z: z[0] == "call" and z[1].endswith("str::<impl str>::lines")):
             run.ok("C17.W1", "row characters = line.chars() of a lines() item", where(chars[0]))
         else:
             run.bad("C17.W1", "row-chars", where(prog.bodies[sb_from]), "rows are not built from line.chars() of the lines() items")
